@@ -412,6 +412,9 @@ theorem apply_sclr {s s' : St} {o : Op} (h : Roles s) (e : apply s o = .ok s') (
   | fraud au ra hh rev p rw => exact fraud_sclr h.core.uniq e
   | obsolete au vs => exact markObsolete_sclr h e
   | punish au a' rw => exact (punish_frame h.core.uniq (punishProposal_ok e).2).sclr
+  | transferOwner sg ra' no =>
+    obtain ⟨r1, hg1, _, _, _, rfl⟩ := transferOwner_ok e
+    exact sclr_setRa (r0 := r1) hg1 (by rfl) (Or.inl (by rfl))
   | begin_ dt => exact absurd rfl (hb dt)
   | end_ f => simp only [apply] at e; injection e with e; subst e; exact (endBlock_frame h.core.uniq).sclr
 
